@@ -171,6 +171,9 @@ func CheckOp(c *Ctx, req mon.OpReq, exp Expect, viaModel bool, mo mon.ModelOpts,
 	if c.Idx%5 == 2 { // node names are optional
 		mo.NoNames = true
 	}
+	if c.Idx%7 == 3 { // the node's domain may be spelled out
+		mo.SpellDomains = true
+	}
 	o, muts := mon.RunOpAPI(req)
 	c.Eval(1)
 	c.Count(fmt.Sprintf("outcome:%s/%s", exp.Kind, o.Kind), 1)
@@ -264,7 +267,11 @@ func CheckOp(c *Ctx, req mon.OpReq, exp Expect, viaModel bool, mo mon.ModelOpts,
 		// an attribute the operator does not have in opset 13 (left over from an older opset's
 		// broadcasting scheme, or simply unknown): the node is refused or computed as without it
 		stray := req
-		switch c.R.Intn(3) {
+		switch c.R.Intn(5) {
+		case 3: // attributes the operator only gets in a LATER opset
+			stray.Attrs = []*mon.Attr{mon.AttrI("allowzero", 1)}
+		case 4:
+			stray.Attrs = []*mon.Attr{mon.AttrI(c.R.PickStr("start", "end"), int64(c.R.PickInt(1, -1, 2, -2)))}
 		case 0:
 			stray.Attrs = []*mon.Attr{mon.AttrI("axis", int64(c.R.Range(0, 2)))}
 		case 1:
@@ -282,6 +289,19 @@ func CheckOp(c *Ctx, req mon.OpReq, exp Expect, viaModel bool, mo mon.ModelOpts,
 		if v := Judge(expS, os); !v.OK {
 			ok = false
 			report(c, "api, node carries an attribute the operator does not have", stray, expS, os, v, known)
+		}
+	}
+	if c.Idx%32 == 26 && ok {
+		// the node object was used before with other attributes (another valid node of this
+		// operator) and has been edited in place since
+		if prev, _, pok := SampleValidReq(c.R, req.Op, true); pok {
+			oe := mon.RunOpOnEditedNode(prev, req)
+			c.Eval(1)
+			c.Count("node-objects-edited-in-place-between-two-Inits", 1)
+			if v := Judge(exp, oe); !v.OK {
+				ok = false
+				report(c, fmt.Sprintf("api, the node object was initialised before with the attributes of %s and edited in place since", trunc(prev.Describe(), 160)), req, exp, oe, v, known)
+			}
 		}
 	}
 	if c.Idx%64 == 2 && ok {
@@ -327,7 +347,7 @@ func CheckOp(c *Ctx, req mon.OpReq, exp Expect, viaModel bool, mo mon.ModelOpts,
 	if c.Idx%8 == 5 && ok {
 		// the same instance and the same tensor objects, whose contents the caller has
 		// overwritten in place since the previous call
-		if ou, ran, stale := mon.RunOpUpdatedInPlace(req); ran {
+		if ou, ran, stale := mon.RunOpUpdatedInPlace(req, c.Idx%16 == 13); ran {
 			c.Eval(1)
 			c.Count("operands-updated-in-place-calls", 1)
 			if v := Judge(exp, ou); !v.OK {
